@@ -60,7 +60,7 @@ PROPS = {
         "extract_keys": ["length MAX", "TOP_VALUE", "length thresholds", "WINDOW_SIZE"],
         "spec_is_property": True,
         "streams": {
-            "quick": [("default", "core", 6000), ("embedded", "core", 2000), ("default-dev", "core", 3000),
+            "quick": [("default", "hugestream", 0), ("default", "core", 6000), ("embedded", "core", 2000), ("default-dev", "core", 3000),
                       ("default", "hugepiece", 0), ("default-dev", "hugepiece", 0)],
             "thorough": [("default", "core", 60000), ("embedded", "core", 30000), ("naive", "core", 30000),
                          ("unsafe", "core", 30000), ("default-dev", "core", 30000), ("unsafe-dev", "core", 30000),
@@ -373,9 +373,9 @@ PROPS = {
         "spec_is_property": False,
         "ignore_spec_mm": True,
         "streams": {
-            "quick": [("default", "stream", 1500), ("default", "file", 0), ("embedded", "stream", 600),
+            "quick": [("default", "hugestream", 0), ("default", "stream", 1500), ("default", "file", 0), ("embedded", "stream", 600),
                       ("optdef", "stream", 600), ("embedded", "file", 0), ("unsafe", "file", 0)],
-            "thorough": [("default", "stream", 30000), ("default", "file", 0), ("embedded", "stream", 10000),
+            "thorough": [("default", "hugestream", 0), ("default", "stream", 30000), ("default", "file", 0), ("embedded", "stream", 10000),
                          ("optdef", "stream", 10000), ("unsafe", "stream", 10000), ("unsafe", "file", 0),
                          ("default-dev", "stream", 10000), ("strict", "stream", 5000)],
         },
@@ -524,6 +524,8 @@ PROPS = {
             ("library builds with neither std nor alloc (cargo build --no-default-features)",
              "cargo build --offline --no-default-features --lib --target-dir /verif/.cache/target/nostd-lib",
              "/repo/fast-tlsh"),
+            ("library builds without std in 15 feature combinations that do not require it (easy-functions, alloc, serde, "
+             "strict-parser, simd, unsafe, opt-*, …)", "sh tools/nostd_matrix.sh", VERIF_DIR),
         ],
         "streams": {
             "quick": [("default", "alloc", 120), ("optdef", "alloc", 60), ("embedded", "alloc", 60),
@@ -590,7 +592,7 @@ PROPS = {
 # quarter of the budget, in the configurations that select *different code* for the same operation
 # (feature `unsafe`, no optional features at all, non-SIMD tables, strict parser where it applies).
 # Round 3 showed that a change confined to one such configuration was otherwise only caught by C07/C17.
-_NO_WIDEN = {"len-sweep", "hugepiece", "huge", "kat", "lie", "race", "file", "bodyrows", "gen-large", "alloc",
+_NO_WIDEN = {"len-sweep", "hugepiece", "hugestream", "huge", "kat", "lie", "race", "file", "bodyrows", "gen-large", "alloc",
              "serde", "tables", "agg"}
 _WIDEN = {
     "C01": ["unsafe", "optdef"], "C02": ["unsafe"], "C03": ["unsafe", "naive"], "C04": ["unsafe", "naive"],
